@@ -17,24 +17,30 @@ MCBodyTerms ==
   \cup {<<k, p>> : k \in (IF Size \in {"S", "M"} THEN {"ptr"} ELSE {"ptr", "ref", "c"}), p \in BProj}
 MCDfltTerms == Wrap1({Pm(1)}) \cup {Bs("char"), <<"t", "P", <<Pm(1), Pm(1)>>>>, <<"t", "Q", <<Pm(1)>>>>}
 
+\* targets of the alias template: a wrapped parameter, a template-id, a projection
+MCAliasTerms == Wrap1({Pm(1)}) \cup {t \in BTids : Params(t) \subseteq {1}}
+                \cup {<<"m", t, s>> : t \in {x \in BTids : Params(x) = {1}}, s \in Slots}
+
 G == IF Size = "S" THEN {Bs("int"), <<"ref", Bs("char")>>}
      ELSE IF Size = "M" THEN {Bs("int"), <<"ref", Bs("char")>>, <<"ptr", Bs("char")>>}
      ELSE {Bs("int"), <<"ref", Bs("char")>>, <<"ptr", Bs("char")>>, <<"c", Bs("int")>>, <<"ref", <<"c", Bs("int")>>>>}
-Roots == {<<"t", "P", <<x, y>>>> : x \in G, y \in G} \cup {<<"t", T, <<x>>>> : T \in Tmpl, x \in G}
+Roots == {<<"t", "P", <<x, y>>>> : x \in G, y \in G} \cup {<<"t", T, <<x>>>> : T \in Tmpl \cup {"V"}, x \in G}
 Q1 == {<<"m", t, s>> : t \in Roots, s \in Slots}
 Q2 == {<<"m", t, s>> : t \in Q1, s \in Slots}
 Q3 == {<<"m", t, s>> : t \in Q2, s \in Slots}
-MCQueryTerms == Q1 \cup Q2 \cup Q3 \cup (IF Size \in {"S", "M"} THEN {} ELSE {<<k, q>> : k \in {"ptr", "ref", "c"}, q \in Q1})
+QV == {t \in Roots : t[2] = "V"}       \* an alias template-id by itself is a query, too
+MCQueryTerms == QV \cup Q1 \cup Q2 \cup Q3 \cup (IF Size \in {"S", "M"} THEN {} ELSE {<<k, q>> : k \in {"ptr", "ref", "c"}, q \in Q1})
 
 \* simulation over the large alphabets: draw a few candidates per step instead of enumerating every successor
 SimNext == \/ \E d \in RandomSubset(2, MCDfltTerms) : SetDefault(d)
            \/ \E T \in Tmpl, s \in Slots, b \in RandomSubset(40, MCBodyTerms) : AddMember(T, s, b)
+           \/ \E b \in RandomSubset(6, MCAliasTerms) : SetAlias(b)
            \/ \E q \in RandomSubset(60, MCQueryTerms) \cup RandomSubset(500, Q2 \cup Q3) : Ask(q)
 SimSpec == Init /\ [][SimNext]_vars
 
 DumpFile == IF "VERIF_DUMP" \in DOMAIN IOEnv THEN IOEnv.VERIF_DUMP ELSE ""
 DumpConstraint ==
   IF DumpFile # "" /\ query # NONE
-    THEN CSVWrite("%1$s", <<ToJson([dflt |-> dflt, defs |-> defs, q |-> query, r |-> Result])>>, DumpFile)
+    THEN CSVWrite("%1$s", <<ToJson([dflt |-> dflt, defs |-> defs, alias |-> alias, q |-> query, r |-> Result])>>, DumpFile)
     ELSE TRUE
 =============================================================================
